@@ -94,18 +94,52 @@ def defaults : PSet := PSet.ofList (defaultsList.map fun k => ⟨k, k.default⟩
 def convert (v : Val) (t : Ty) : Except Err Val :=
   if v.ty = t then .ok v else .error (errS .wrong_parameter_type_error)
 
+/-- sizes the checks can see: `n_vectors` and `current_dimension` -/
+structure Sizes where
+  n : Nat
+  dim : Nat
+  deriving DecidableEq, Repr, Inhabited
+
+/-- numeric value of a parameter as seen by a bound expression (`static_cast<T>(parameters[kw])`) -/
+def numView (get : Kw → Except Err Val) (kw : Kw) : Rat :=
+  match get kw with
+  | .ok v => (v.num?).getD 0
+  | .error _ => 0
+
+def bEnv (sz : Sizes) (get : Kw → Except Err Val) : BEnv := ⟨(sz.n : Int), (sz.dim : Int), numView get⟩
+
+/-- conversions `T x = parameters[kw]` of the parameters a predicate / guard reads -/
+def readAll (get : Kw → Except Err Val) : List Kw → Except Err Unit
+  | [] => .ok ()
+  | kw :: t =>
+    match get kw with
+    | .error e => .error e
+    | .ok v => if v.ty = kw.ty then readAll get t else .error (errS .wrong_parameter_type_error)
+
 /-- `parameters[kw].checked().satisfies(pred)[.orThrow()]` on a temporary copy of the parameter:
-    `operator[]` may miss, `isCondition` converts to the predicate's template argument (type error), a failed
-    predicate invalidates the temporary, which only `orThrow()` turns into an exception. -/
-def runCheck (n : Nat) (get : Kw → Except Err Val) (c : VStep) : Except Err Unit :=
+    `operator[]` may miss; constructing the predicate converts the parameters its bounds mention; `isCondition` converts
+    to the predicate's template argument (type error); a failed predicate invalidates the temporary, which only
+    `orThrow()` turns into an exception. -/
+def runCheck (sz : Sizes) (get : Kw → Except Err Val) (c : VStep) : Except Err Unit :=
   match get c.kw with
   | .error e => .error e
   | .ok v =>
-    if v.ty = c.pred.ty then
-      match v.num? with
-      | some x => if c.pred.holds (n : Int) x then .ok () else if c.orThrow then .error (errS .wrong_parameter_error) else .ok ()
-      | none => .ok ()      -- predicates are only instantiated at IndexType / ScalarType (checked by the translator)
-    else .error (errS .wrong_parameter_type_error)
+    match readAll get c.pred.params with
+    | .error e => .error e
+    | .ok _ =>
+      if v.ty = c.pred.ty then
+        match v.num? with
+        | some x => if c.pred.holds (bEnv sz get) x then .ok () else if c.orThrow then .error (errS .wrong_parameter_error) else .ok ()
+        | none => .ok ()      -- predicates are only instantiated at IndexType / ScalarType (checked by the translator)
+      else .error (errS .wrong_parameter_type_error)
+
+/-- a statement of `validate()` -/
+def runVStmt (sz : Sizes) (get : Kw → Except Err Val) : VStmt → Except Err Unit
+  | .check c => runCheck sz get c
+  | .guarded lhs cmp rhs c =>
+    match readAll get (lhs.params ++ rhs.params) with
+    | .error e => .error e
+    | .ok _ => if cmp.holds (lhs.eval (bEnv sz get)) (rhs.eval (bEnv sz get)) then runCheck sz get c else .ok ()
 
 /-! ## the counting monad -/
 
@@ -162,6 +196,7 @@ structure Request where
   hasD : Bool
   hasF : Bool
   stop : Bool := false          -- harness mode: the first kernel / distance evaluation ends the run
+  dim : Nat := 10               -- what `features.dimension()` returns (when the features callback is supplied)
   deriving Repr, Inhabited
 
 def Request.has (r : Request) : Cb → Bool
@@ -176,7 +211,7 @@ def useCb (r : Request) (cb : Cb) : M Unit :=
   else M.throw (errT .unsupported_method_error)      -- the dummy callback throws
 
 /-- one event of an `embed()` statement -/
-def runEv (r : Request) (n : Nat) (get : Kw → Except Err Val) : Ev → M Unit
+def runEv (r : Request) (n : Sizes) (get : Kw → Except Err Val) : Ev → M Unit
   | .read kw => M.lift (match get kw with
       | .error e => .error e
       | .ok v => match convert v kw.ty with | .ok _ => .ok () | .error e => .error e)
@@ -184,11 +219,11 @@ def runEv (r : Request) (n : Nat) (get : Kw → Except Err Val) : Ev → M Unit
   | .use cb _ => useCb r cb
   | .dimension => if r.hasF then M.pure () else M.throw (errT .unsupported_method_error)
 
-def runEvs (r : Request) (n : Nat) (get : Kw → Except Err Val) : List Ev → M Unit
+def runEvs (r : Request) (n : Sizes) (get : Kw → Except Err Val) : List Ev → M Unit
   | [] => M.pure ()
   | e :: es => M.bind (runEv r n get e) fun _ => runEvs r n get es
 
-def runBlock (r : Request) (n : Nat) (get : Kw → Except Err Val) : List (String × List Ev) → M Unit
+def runBlock (r : Request) (n : Sizes) (get : Kw → Except Err Val) : List (String × List Ev) → M Unit
   | [] => M.pure ()
   | b :: bs => M.bind (runEvs r n get b.2) fun _ => runBlock r n get bs
 
@@ -198,11 +233,11 @@ def isLit (get : Kw → Except Err Val) (kw : Kw) (lit : Val) : Bool :=
   | .ok v => decide (v = lit)
   | .error _ => false
 
-def runStmt (r : Request) (n : Nat) (get : Kw → Except Err Val) : EStmt → M Unit
+def runStmt (r : Request) (n : Sizes) (get : Kw → Except Err Val) : EStmt → M Unit
   | .plain _ evs => runEvs r n get evs
   | .ifIs kw lit thn els => if isLit get kw lit then runBlock r n get thn else runBlock r n get els
 
-def runStmts (r : Request) (n : Nat) (get : Kw → Except Err Val) : List EStmt → M Unit
+def runStmts (r : Request) (n : Sizes) (get : Kw → Except Err Val) : List EStmt → M Unit
   | [] => M.pure ()
   | s :: ss => M.bind (runStmt r n get s) fun _ => runStmts r n get ss
 
@@ -212,12 +247,12 @@ def seqE (x k : Except Err Unit) : Except Err Unit :=
   | .ok _ => k
   | .error e => .error e
 
-def runChecks (n : Nat) (get : Kw → Except Err Val) : List VStep → Except Err Unit
+def runChecks (n : Sizes) (get : Kw → Except Err Val) : List VStmt → Except Err Unit
   | [] => .ok ()
-  | c :: cs => seqE (runCheck n get c) (runChecks n get cs)
+  | c :: cs => seqE (runVStmt n get c) (runChecks n get cs)
 
 /-- `implementation.validate(); return implementation.embed();` as listed in the dispatch block -/
-def runDispatchSteps (r : Request) (n : Nat) (get : Kw → Except Err Val) (m : Meth) : List DispatchStep → M Unit
+def runDispatchSteps (r : Request) (n : Sizes) (get : Kw → Except Err Val) (m : Meth) : List DispatchStep → M Unit
   | [] => M.pure ()
   | .validate :: ds => M.bind (M.lift (runChecks n get (validate m))) fun _ => runDispatchSteps r n get m ds
   | .embed :: _ => runStmts r n get (embedBody m)         -- `return`: nothing after it runs
@@ -234,6 +269,7 @@ structure FState where
   meth : Option Meth := none              -- selected_method
   cancelFn : Option Bool := none          -- cancel_function_ptr (none = NULL)
   nvec : Nat := 0                         -- n_vectors (0 until the constructor runs)
+  curDim : Nat := 0                       -- current_dimension
   echo : Option (List (Kw × Val)) := none -- what the debug-level visit printed
   deriving Repr, Inhabited
 
@@ -253,8 +289,8 @@ def runStep (r : Request) (st : FState) : FrontStep → M FState
   | .log => M.pure st
   | .countN => M.pure { st with nvec := r.n }
   | .noData => if st.nvec = 0 then M.throw (errT .no_data_error) else M.pure st
-  | .check c => M.bind (M.lift (runCheck st.nvec st.ps.get c)) fun _ => M.pure st
-  | .dimension => M.pure st
+  | .check c => M.bind (M.lift (runCheck ⟨st.nvec, st.curDim⟩ st.ps.get c)) fun _ => M.pure st
+  | .dimension => M.pure { st with curDim := if r.hasF then r.dim else 0 }
   | .cancel => if st.cancelFn = some true then M.throw (errT .cancelled_exception) else M.pure st
   | .needs cb =>
     match st.meth with
@@ -264,7 +300,7 @@ def runStep (r : Request) (st : FState) : FrontStep → M FState
     match st.meth with
     | some m =>
       match findDispatch m dispatch with
-      | some ds => M.bind (runDispatchSteps r st.nvec st.ps.get m ds) fun _ => M.pure st
+      | some ds => M.bind (runDispatchSteps r ⟨st.nvec, st.curDim⟩ st.ps.get m ds) fun _ => M.pure st
       | none => M.pure st                -- falls through to `return TapkeeOutput()`
     | none => M.pure st
 
